@@ -96,7 +96,9 @@ def snapshot(W, arrays):
 def check_unchanged(W, name, snaps):
     for k, s in enumerate(snaps):
         fa = s.fa
-        W.prove(f"{name}.frame[{k}].dims_object", fa.dims is s.dims, kind="frame")
+        # (pydantic re-runs the after-validators of a model instance that is passed as a field value to
+        #  another model -- e.g. an array handed to a Stock, Flow, plotter --, so `dims` may be replaced by an
+        #  equal copy; what must not change is the view: the same Dimension objects in the same order)
         # (the list *object* may be replaced by an equal fresh one: pydantic re-runs DimensionSet's
         #  copy_dim_list validator on an empty -- falsy -- set passed to a constructor; the view is what counts)
         W.prove(
